@@ -22,7 +22,61 @@ def check_C06(tier, seed):
              "(1-4 batches, flush patterns, options); non-trivial = at least 2 rows/elements; distinct by input hash")
 
 
+API_ASSUMPTIONS = [
+    "type-homogeneous columns (int / float / string), nullable or absent from some batches; columns mixing types across rows are C01's subject",
+    "stored integers exclude i64::MAX (NULL sentinel); columns whose own value range exceeds i64 are excluded (C01: F10/F19)",
+    "float SUM is compared numerically with a relative tolerance of 1e-9 by the harness (the Coq checker treats it as a wildcard); NaN is not generated",
+    "an Overflow error is accepted whenever some expression of the query overflows on some row of the table or a partial SUM of a group can leave i64 (which partial sums occur depends on the split)",
+]
+
+
+def check_C03(tier, seed):
+    return standard_check(
+        "C03", tier, seed, "query", ["c03_kernel", "c03_filter"],
+        trusted=QUERY_TRUSTED, assumptions=API_ASSUMPTIONS,
+        rule="c03_kernel: the six comparisons on u8/u16/u32 offset encodings against constants inside / at the edges of / outside the "
+             "column range through the real Codec::encode_int, InverseDictLookup on generated dictionaries; c03_filter: "
+             "SELECT id [,col] FROM t WHERE <pred> on generated tables (9 typed columns, 1-300 rows) and layouts (1-4 batches, flush "
+             "patterns, batch_size/threads/lz4/max_partition_size options) in 9 predicate slices; non-trivial = table has >= 2 rows; "
+             "distinct by input hash")
+
+
+def check_C05(tier, seed):
+    return standard_check(
+        "C05", tier, seed, "query", ["c05_kernel", "c05_order"],
+        trusted=QUERY_TRUSTED, assumptions=API_ASSUMPTIONS,
+        rule="c05_kernel: merge / merge_keep / merge_keep_nullable / partition / subpartition / merge_partitioned / heap_replace "
+             "on generated sorted inputs (ties, ASC and DESC comparators, limits 0..n+2 and usize::MAX); c05_order: "
+             "SELECT .. [WHERE] ORDER BY 1-3 keys (columns or expressions, ASC/DESC mixes) LIMIT/OFFSET around half the partition "
+             "length and around the row count, and LIMIT/OFFSET without ORDER BY, in 7 slices")
+
+
+def check_C04(tier, seed):
+    return standard_check(
+        "C04", tier, seed, "query", ["c04_kernel", "c04_group"],
+        trusted=QUERY_TRUSTED, assumptions=API_ASSUMPTIONS,
+        rule="c04_kernel: merge_deduplicate / merge_aggregate (SUM, COUNT, MIN, MAX; values at the i64 edges) / merge_drop / "
+             "partition + merge_deduplicate_partitioned on generated strictly sorted key columns; c04_group: 0-3 grouping "
+             "columns (int/float/string, nullable, partially absent, cardinalities 1..260), COUNT/SUM/MIN/MAX/AVG over int and float "
+             "measures, optional WHERE / ORDER BY / LIMIT, 1-4 partitions, in 10 slices")
+
+
+def check_C02(tier, seed):
+    return standard_check(
+        "C02", tier, seed, "query", ["c02_layout"],
+        trusted=QUERY_TRUSTED, assumptions=API_ASSUMPTIONS,
+        rule="c02_layout: one logical table under two generated physical layouts (batch splits, flush after any subset of batches, "
+             "partition_combine_factor in {0,1,4,999}, mem_lz4, max_partition_size_bytes in {1,64,4096,8Mi}, batch_size in "
+             "{8,16,64,1024}, threads in {1,2,8}, memory-only / on-disk, typed-column / row-wise ingestion); 4-5 queries per pair "
+             "(filter, nullable filter, order-by-limit, aggregate, one gap-prone query); every answer is checked against the "
+             "specification and the two answers against each other")
+
+
 CHECKS = {
+    "C02": check_C02,
+    "C03": check_C03,
+    "C04": check_C04,
+    "C05": check_C05,
     "C06": check_C06,
 }
 
@@ -39,4 +93,57 @@ CLAIMED = {
              "translator). Trusted: Coq kernel, extraction, OCaml/Rust glue, the Rust reference evaluator.",
         technique="Coq proof over an executable model of the checked-arithmetic kernels + kernel-level and API-level differential correspondence",
         design_ref="5/C06"),
+    "C03": dict(
+        text="Machine-checked proof (Coq 8.16, no axioms): comparing an offset-encoded integer with the translated constant equals "
+             "comparing the decoded values for all six operators whenever `constant - offset` stays in i64 (the overflow set is "
+             "characterised exactly; the release-profile wrap-around is refuted with a witness); on a sorted duplicate-free "
+             "dictionary = / <> on indices agree with byte equality for present and absent constants, < <= > >= agree with byte "
+             "order when the constant is present (refuted when absent, F7); null-aware AND as planned keeps exactly the rows of "
+             "three-valued AND (OR refuted, F21); the specification's WHERE returns exactly the sub-list of rows whose predicate "
+             "is TRUE, NULL comparisons are never true, IS [NOT] NULL tests presence. The kernels are tied to the Rust code and the "
+             "specification to LocustDB::run_query by differential runs on every check.",
+        note="Plan selection (which encoded / decoded operator the planner picks per partition), LIKE/regex and the filter "
+             "application to other columns are covered only by the API-level differential against Model/QuerySpec.v (LIKE is "
+             "specified by a direct matcher, regex() is not generated). 30-odd engine gaps in this area are listed as known findings.",
+        technique="Coq proof over executable models of the encoded-comparison kernels and of the WHERE semantics + kernel-level and API-level differential correspondence",
+        design_ref="5/C03"),
+    "C04": dict(
+        text="Machine-checked proof (Coq 8.16, no axioms) over a transcription of merge_deduplicate.rs / merge_aggregate.rs / "
+             "merge_drop.rs: on strictly sorted key columns the index loop computes the three-way merge; replaying its ops with "
+             "Combinable::combine yields exactly the union of the two partial group-by results (each key once, COUNT/SUM/MIN/MAX "
+             "combined exactly) unless Overflow is reported; that union equals the group-by of the concatenated rows; hence over ANY "
+             "binary merge tree every group occurs exactly once, exactly the occurring keys are present and each carries the "
+             "aggregate of exactly its rows.",
+        note="Proved for integer keys (a key = its rank in the key order) and one key column; the partitioned multi-column kernels, "
+             "the per-partition grouping strategies (array / bit-packed / hash), compaction of accumulator arrays, AVG's final pass "
+             "and float sums are covered by the kernel and API differentials only. Multi-column and nullable-key grouping are "
+             "broken in the engine (known findings Q15/Q16).",
+        technique="Coq proof over executable models of the dedup-merge / aggregate-merge kernels + kernel-level and API-level differential correspondence",
+        design_ref="5/C04"),
+    "C05": dict(
+        text="Machine-checked proof (Coq 8.16, no axioms; comparator = any total transitive relation) over a transcription of "
+             "merge.rs / merge_keep.rs / the select branch of batch_merging::combine / the final slice: merge with limit is the "
+             "limit-prefix of the stable merge (sorted, permutation of the inputs); merge_keep carries the other columns row-aligned; "
+             "the relation `topk` (sorted, min(k,n) rows, nothing smaller left out, ties free) is preserved by merging and holds for "
+             "sort-then-cut partitions, hence for ANY merge tree; without ORDER BY any tree yields the ingestion-order prefix; the "
+             "final slice returns rows offset+1..offset+limit when offset <= rows and its totality is refuted (F5).",
+        note="top_n's heap (heap_replace is modelled and differentially tested, no heap-invariant proof), partition / subpartition / "
+             "merge_partitioned for multi-key sorts (modelled and differentially tested, not proved), NULL placement by the "
+             "comparators and per-partition sorting are covered by the kernel and API differentials against Model/QuerySpec.v only. "
+             "The bridge from `topk` to the QuerySpec checker is not proved.",
+        technique="Coq proof over executable models of the sorted-merge kernels + kernel-level and API-level differential correspondence",
+        design_ref="5/C05"),
+    "C02": dict(
+        text="Machine-checked proof (Coq 8.16, no axioms) that for the three result kinds every binary merge tree over the "
+             "per-partition results yields the answer for the concatenated table: select/filter (append with limit = ingestion-order "
+             "prefix), ORDER BY with LIMIT (the topk relation), aggregates (group-by of all rows; checked SUM exact or Overflow); two "
+             "splits of the same rows therefore give the same rows / groups. The specification `valid` takes the logical table only, "
+             "its canonical answer is proved valid for every query, table, LIMIT and OFFSET, and its arithmetic is proved equal to the "
+             "engine's checked arithmetic. Every run builds one logical table under pairs of physical layouts and checks both answers "
+             "against the extracted `valid` and against each other.",
+        note="Planner, executor (stage partitioning, streaming batch size), lazy column loading, compaction and restart are reached "
+             "only by the correspondence run (memory-only / on-disk, flush subsets, combine factors, options); restarted-and-cold "
+             "layouts are not generated. Trusted: Coq kernel, extraction, OCaml/Rust glue, the Rust reference evaluator.",
+        technique="Coq proof of the merge algebra over executable kernel models + executable SQL specification with a proved-sound checker + layout-pair metamorphic correspondence",
+        design_ref="5/C02"),
 }
